@@ -3231,9 +3231,11 @@ static void AssembleFile(char* Name) {
     do {
         /* Durchlauf initialisieren */
 
+        /* (the error counters first: setting up the default CPU may already report) */
+
+        AsmErrPassInit();
         AssembleFile_InitPass();
         AsmSubPassInit();
-        AsmErrPassInit();
         if (!QuietMode) {
             as_snprintf(Tmp, sizeof(Tmp), "%s", getmessage(Num_InfoMessPass));
             as_snprcatf(Tmp, sizeof(Tmp), "%" PRId32, PassNo);
